@@ -1,6 +1,6 @@
 """C18 — hashing hand-off (HashQueue / HashCheckQueue / disk thread): deterministic-scheduler
-correspondence + property oracle on the implementation's log; Coq side is a finite instance only
-(see coq/C18/Properties.v)."""
+correspondence + property oracle on the implementation's log; Coq side: inductive invariants for all programs and
+schedules + unbounded deadlock freedom with the looping disk thread (see coq/C18/Properties.v)."""
 import hashlib, json, re
 import ltv
 from gen import c18 as G
@@ -52,6 +52,34 @@ def oracle(case, line):
             bad.append(("stuck-result", "%d result(s) sit in the done map with no work() callback queued or running: the piece(s) will never be answered" % dnn))
         if cqn > 0 and dqn == 0:
             bad.append(("lost-disk-wakeup", "%d piece(s) sit in the check queue with no perform() callback queued or running on the disk thread" % cqn))
+    # unbounded deadlock freedom with the disk thread running its event loop (coq/C18/Properties.v
+    # handoff_disk_always_enabled / hashing_handoff_no_deadlock; hypotheses: disk program = LOOP, distinct pushes):
+    # the disk thread is enabled at every step, and a main thread that is blocked (hq_wait with the flag clear, or
+    # m_done_chunks_lock held by chunk_done) is enabled again after at most 4 steps of the disk thread
+    parts = [x.strip() for x in case.split("/")]
+    plist = [c for c in parts[0].split() if c.startswith("P:")] if len(parts) == 3 else []
+    if len(parts) == 3 and parts[1] == "LOOP" and len(set(c.split(":")[1] for c in plist)) == len(plist):
+        blocked, cand = None, None
+        for k, t in enumerate(toks):
+            if t.startswith("1:"):
+                if t.endswith(":-"):
+                    bad.append(("disk-stuck", "the disk thread (event loop) is not enabled at schedule step %d" % k))
+                    break
+                if blocked is not None:
+                    blocked += 1
+            elif t.startswith("0:"):
+                if t.endswith(":-"):
+                    if blocked is None:
+                        blocked = 0
+                    elif blocked >= 4 and cand is None:
+                        cand = k
+                else:
+                    if cand is not None:
+                        break
+                    blocked = None
+        if cand is not None and (fin[0] == "0" or any(not t.endswith(":-") for t in toks[cand:] if t.startswith("0:"))):
+            bad.append(("main-stuck", "main thread still blocked at schedule step %d after 4 or more steps of the looping disk thread "
+                                      "(lost wake-up / lock not released)" % cand))
     # deadlock / lost wake-up: the schedule ends with a long round-robin tail; if a thread is unfinished and
     # nothing was enabled during the last 30 schedule steps, nobody can ever step
     if fin != "11" and len(toks) >= 30 and all(t.endswith(":-") for t in toks[-30:]):
@@ -189,4 +217,4 @@ def run(rep, tier, seed, replay):
                    samples=samples, input_distribution=stats, mismatches=mism, exhaustive=exhaustive,
                    correspondence="deterministic scheduler over the real main-role/disk-role threads (exact per-step log equality)")
     rep.assumptions += ["sequentially consistent atomics", "two threads (main, disk)", "slot_done callbacks do not re-enter the HashQueue",
-                        "Coq theorems for C18 are a finite instance only; the general invariants are not proved"]
+                        "liveness theorems (wakeup_within_4_disk_steps, remove_terminates, hashing_handoff_no_deadlock) take the disk thread to be its event loop [Loop]"]
